@@ -219,7 +219,26 @@ def _w_c17(case):
             return bad("sql", "convert_records on SQLite differs from the reference", got_blocks=_canon(q1), got_rows=_canon(q2))
     except Exception as ex:  # noqa: BLE001
         return bad("sql-raised", "%s: %s" % (type(ex).__name__, str(ex)[:300]))
-    return {"status": "ok", "stats": dict(stats), "nontrivial": len(case["ctrl"]["keys"]) >= 2 and len(case["recs"]) >= 1}
+    # compositions with a ROW-FORM end (checked last: a failure here is a recorded finding and must not mask the rest)
+    late = []
+    rowforms = {"rows->blocks >> blocks->blocks": (lambda: m_out >> one, rows, tallb),
+                "blocks->blocks >> blocks->rows": (lambda: one >> t_in, blocks, rows)}
+    for name, (f, src, want) in rowforms.items():
+        try:
+            comp = f()
+            if comp is None:
+                stats["compose_none"] += 1
+                continue
+            got = comp.transform(src)
+        except Exception as ex:  # noqa: BLE001
+            late.append(bad("compose-rowform-raised:" + name, "%s: %s" % (type(ex).__name__, str(ex)[:300])))
+            continue
+        stats["compositions_rowform"] += 1
+        if not _same(got, want):
+            late.append(bad("compose-rowform:" + name, "the composite map differs from applying the maps one after the other",
+                            got=_canon(got), want=_canon(want)))
+    return {"status": "ok", "stats": dict(stats), "nontrivial": len(case["ctrl"]["keys"]) >= 2 and len(case["recs"]) >= 1,
+            "late": late}
 
 
 def rec_cases(tr, tier, maxrecs=None):
@@ -246,7 +265,7 @@ def check_C17(tier, replay=None):
         rec = json.load(open(replay))
         out = w_c17(rec["case"])
         print(json.dumps(out, indent=1, default=str)[:5000])
-        return 1 if out["status"] != "ok" else 0
+        return 1 if (out["status"] != "ok" or out.get("late")) else 0
     cases, viol = rec_cases(tr, tier)
     for r in viol:
         rc.law_violation(vd, r, "Records laws")
@@ -262,16 +281,16 @@ def check_C17(tier, replay=None):
                 nontriv += 1
             if out["status"] == "crash":
                 raise common.MachineryError("worker crashed: " + out["detail"])
-            if out["status"] == "violation":
+            for o in ([out] if out["status"] == "violation" else []) + list(out.get("late", [])):
                 fid = None
                 for f in vd.findings.get("findings", []):
-                    if "C17" in f.get("properties", []) and f.get("kind") == "records" and out["tag"].startswith(f["tag_prefix"]):
+                    if "C17" in f.get("properties", []) and f.get("kind") == "records" and o["tag"].startswith(f["tag_prefix"]):
                         fid = f["id"]
                 if fid:
                     vd.note_known(fid)
                     stats["KF:" + fid] += 1
                     continue
-                vd.violation({"kind": "C17", "case": case, "detail": out["detail"]}, tag=out["tag"])
+                vd.violation({"kind": "C17", "case": case, "detail": o["detail"]}, tag=o["tag"])
     cov = {"states": tr.states, "transitions": tr.transitions, "traces_validated_against_impl": stats["cases"],
            "samples": [{"control_table": c["ctrl"], "records": c["recs"], "blocks": c["blocks"]} for c in cases[-2:]],
            "evaluations": stats["cases"], "distinct_nontrivial": nontriv,
